@@ -82,7 +82,7 @@ def FailClosed (v : Variant) : Prop :=
     p.backend ∈ bo →
     pathOk w (run v w ho bo).binds p (obsOf w (run v w ho bo) i) = true
 
-/- Full-strength statement: `theorem fail_closed : FailClosed vOAuth` (the current code).
+/- Full-strength statement: `theorem fail_closed : FailClosed vBoth` (the current code).
    It does not hold (`fail_closed_fails` below: frontend placement); what is proved is the part
    that rests on the backend section: -/
 
@@ -118,6 +118,63 @@ theorem fail_closed_partial (v : Variant) (hv : v.oauthOwn = true) (w : World) (
         subst hp'
         exact ⟨u, hu, hb⟩) hd hside
     simp only [pathOk, hrb, hcov, Bool.or_true, Bool.true_or]
+
+/-- **fail closed, frontend placement, request equal to the path** (clean-up keeps frontend
+names, `usedFront`): a path that declares an auth-url with frontend placement, on a host whose
+host-level placement and auth-url are the path's own (no other ingress registered different
+values first) and which `buildHostAuthExternal` visits, gets from the frontends — for the request
+whose base equals the path — either `deny` or the intercept through a port bound to the backend
+of its own URL, followed by deny-or-redirect unless successful; for every validation outcome,
+port range, other paths/hosts/backends and iteration order.  For an exact path (`sub = key`) that
+is every request of the path.  Side conditions on the rendered scope `-m str <match> '<key>'`:
+no other path has the same key and no match word equals the key. -/
+theorem fail_closed_frontend_partial (v : Variant) (hv : v.usedFront = true) (w : World)
+    (ho bo : List Nat) (i : Nat) (p : PathIn) (u : Url)
+    (hp : w.paths[i]? = some p) (hho : p.host ∈ ho)
+    (hown : ownPlc p = .frontend) (hurl : p.url = .val u)
+    (hplc : hostPlc w p.host = .frontend) (hhu : hostUrl w p.host = p.url)
+    (hkeys : ∀ (j : Nat) (q : PathIn), w.paths[j]? = some q → j ≠ i → q.key ≠ p.key)
+    (hham : ∀ (j : Nat) (q : PathIn), w.paths[j]? = some q → q.hamatch ≠ p.key) :
+    covered (run v w ho bo).binds (wants w p) (obsOf w (run v w ho bo) i).r0 = true ∧
+    (p.sub = p.key → pathOk w (run v w ho bo).binds p (obsOf w (run v w ho bo) i) = true) := by
+  rw [hurl] at hhu
+  obtain ⟨⟨hs, _⟩, hfrec⟩ := run_inv2 v w ho bo
+  have hsome := run_frec_isSome (v := v) (bo := bo) hp hho hplc hhu
+  cases hr : (run v w ho bo).frec i with
+  | none => rw [hr] at hsome; cases hsome
+  | some r =>
+    obtain ⟨p', u', hp', _, hu', hshape⟩ := hfrec i r hr
+    rw [hp] at hp'
+    injection hp' with hp'
+    subst hp'
+    rw [hhu] at hu'
+    injection hu' with hu'
+    subst hu'
+    have hr0 : (obsOf w (run v w ho bo) i).r0 = rulesOf r := by
+      unfold obsOf
+      rw [hp]
+      exact frontRules_own hp hr hkeys hham
+    have hcov : covered (run v w ho bo).binds (wants w p) (rulesOf r) = true := by
+      rcases hshape with rfl | ⟨P, rfl, hres, hb⟩
+      · simp [rulesOf, denyRec, covered]
+      · have hw : Want.proxy u.target (normPath u.path) ∈ wants w p := by
+          unfold wants
+          rw [hurl]
+          simp [placed, hown, hres]
+        have hrules : rulesOf (okRec {} P u (hostSignin w p.host)) =
+            [.icpt (.proxy P) (normPath u.path) "", .unless (hostSignin w p.host) ""] := by
+          simp [rulesOf, okRec]
+        rw [hrules]
+        simp only [covered]
+        rw [targetOf_of_mem hs (hb hv)]
+        simpa using hw
+    refine ⟨by rw [hr0]; exact hcov, ?_⟩
+    intro hsub
+    have hr1 : (obsOf w (run v w ho bo) i).r1 = (obsOf w (run v w ho bo) i).r0 := by
+      unfold obsOf
+      rw [hp]
+      simp only [hsub]
+    simp only [pathOk, hr1, hr0, hcov, Bool.and_self, Bool.or_true]
 
 /-! ### witnesses -/
 
@@ -196,7 +253,7 @@ def wFrontBegin : World :=
 /-- the frontend rule is scoped by `{ var(req.base) -m str beg 'h0.local#/a' }`: `-m str` compares
 the whole base with the words `beg` and the key, so a request below the path is not intercepted -/
 theorem frontend_rule_misses_subpaths :
-    let st := run vOAuth wFrontBegin [0] [0]
+    let st := run vBoth wFrontBegin [0] [0]
     (obsOf wFrontBegin st 0).r0 = [.icpt (.proxy 14415) "/auth" "", .unless false ""] ∧
     (obsOf wFrontBegin st 0).r1 = [] ∧
     oracle wFrontBegin st.binds [obsOf wFrontBegin st 0] = some "frontend-rule-misses-subpath-requests" := by
@@ -210,7 +267,7 @@ def wHostConflict : World :=
      mkPath 0 1 "h0.local#/b" "str" "h0.local#/b" (.val (uOk 2 "/check")) .frontend .absent]
 
 theorem frontend_placement_lost_on_host_conflict :
-    let st := run vOAuth wHostConflict [0] [0, 1]
+    let st := run vBoth wHostConflict [0] [0, 1]
     st.frec 1 = none ∧ st.brec 1 = {} ∧
     oracle wHostConflict st.binds [obsOf wHostConflict st 0, obsOf wHostConflict st 1]
       = some "frontend-placement-lost-on-host-conflict" := by
@@ -224,12 +281,20 @@ def wPortReassigned : World :=
     [mkPath 0 0 "h0.local#/a" "str" "h0.local#/a" (.val (uOk 1 "/auth")) .frontend .absent,
      mkPath 1 1 "h1.local#/b" "str" "h1.local#/b" (.val (uOk 2 "/check")) .backend .absent]
 
-theorem frontend_port_reassigned :
+theorem frontend_port_reassigned_before_fix :
     let st := run vOAuth wPortReassigned [0, 1] [0, 1]
     st.frec 0 = some { name := .proxy 14415, authPath := "/auth" } ∧ st.binds = [⟨14415, 2⟩] ∧
     st.cleaned = true ∧
     oracle wPortReassigned st.binds [obsOf wPortReassigned st 0, obsOf wPortReassigned st 1]
       = some "frontend-intercept-through-reassigned-auth-proxy-port" := by
+  decide +kernel
+
+/-- with the names of frontend placed paths kept by the clean-up (repo commit 48fd9df) the
+frontend path keeps its port and service, and the backend path that finds the range full is denied -/
+theorem frontend_port_kept :
+    let st := run vBoth wPortReassigned [0, 1] [0, 1]
+    st.binds = [⟨14415, 1⟩] ∧ st.brec 1 = { alwaysDeny := true } ∧
+    oracle wPortReassigned st.binds [obsOf wPortReassigned st 0, obsOf wPortReassigned st 1] = none := by
   decide +kernel
 
 /-- an auth-url whose placement is neither backend nor frontend configures nothing and still
@@ -238,14 +303,14 @@ def wPlacementTypo : World :=
   mkWorld 14415 14416 [mkPath 0 0 "h0.local#/a" "beg" "h0.local#/a/sub" (.val (uOk 1 "/auth")) .other oauthOk]
 
 theorem oauth_skipped_for_unplaced_auth_url :
-    let st := run vOAuth wPlacementTypo [0] [0]
+    let st := run vBoth wPlacementTypo [0] [0]
     (obsOf wPlacementTypo st 0) = ⟨[], [], []⟩ ∧
     oracle wPlacementTypo st.binds [obsOf wPlacementTypo st 0]
       = some "oauth-skipped-for-auth-url-with-invalid-placement" := by
   decide +kernel
 
-/-- the full statement fails for the repaired variant too (frontend placement) -/
-theorem fail_closed_fails : ¬ FailClosed vOAuth := by
+/-- the full statement fails for the current code too (frontend placement, begin/prefix path) -/
+theorem fail_closed_fails : ¬ FailClosed vBoth := by
   intro h
   have := h wFrontBegin [0] [0] 0 _ (by decide) rfl (by decide)
   revert this
@@ -260,13 +325,20 @@ example : let w := mkWorld 14415 14416 [mkPath 0 0 "h0.local#/a" "beg" "h0.local
 example : let w := mkWorld 14415 14414 [mkPath 0 0 "h0.local#/a" "beg" "h0.local#/a/sub" (.val (uOk 1 "/auth")) .absent .absent]
     (obsOf w (run vOAuth w [0] [0]) 0).rb = [.deny] := by decide +kernel
 
+/-- non-vacuity of `fail_closed_frontend_partial`: an exact path placed in the frontend -/
+example : let w := mkWorld 14415 14416 [mkPath 0 0 "h0.local#/a" "str" "h0.local#/a" (.val (uOk 1 "/auth")) .frontend .absent]
+    hostPlc w 0 = .frontend ∧ hostUrl w 0 = .val (uOk 1 "/auth") ∧
+    obsOf w (run vBoth w [0] [0]) 0 =
+      ⟨[], [.icpt (.proxy 14415) "/auth" "", .unless false ""], [.icpt (.proxy 14415) "/auth" "", .unless false ""]⟩ := by
+  decide +kernel
+
 /-! ## facts regenerated from the Go sources and the template -/
 
 /-- `setAuthExternal` arms the deny first and clears it once, after the last early return; the
 clean-up between the two acquire attempts uses `BuildUsedAuthBackends`, which reads backend paths
 only; auth-url is built before oauth and hosts before backends; `buildBackendOAuth` is the
-repaired variant of the model (own auth-url, deny restored); the clean-up is one of the two
-modelled variants; the frontend scope condition is the one `frontCond` models; the allocator
+repaired variant of the model (own auth-url, deny restored) and the clean-up also keeps the
+names read from `HostPath.AuthExt` (`currentVariant = vBoth`); the frontend scope condition is the one `frontCond` models; the allocator
 compares what `scan`/`acquire` compare -/
 theorem facts_c18 :
     Facts.c18SetAuthFirstStmt = "auth.AlwaysDeny = true" ∧
@@ -284,9 +356,8 @@ theorem facts_c18 :
     Facts.c18OAuthPrecedenceReads = "config" ∧
     Facts.c18OAuthPrecedenceAssigns = ["path.AuthExternal.AlwaysDeny = denied"] ∧
     Facts.c18OAuthDenyAssigns = ["path.AuthExternal.AlwaysDeny = true", "path.AuthExternal.AlwaysDeny = denied", "path.AuthExternal.AlwaysDeny = false"] ∧
-    currentVariant.oauthOwn = true ∧
-    ((Facts.c18SetAuthUsedFrontReads = [] ∧ currentVariant = vOAuth) ∨
-     (Facts.c18SetAuthUsedFrontReads = ["hpath.AuthExt.AuthBackendName"] ∧ currentVariant = vBoth)) := by
+    Facts.c18SetAuthUsedFrontReads = ["hpath.AuthExt.AuthBackendName"] ∧
+    currentVariant = vBoth := by
   decide +kernel
 
 end HapVerif.C18
